@@ -23,14 +23,14 @@ import (
 var httpEndpoints = []string{"e1", "e10", "e1-x", "api", "ghost"} // "ghost" never gets an upstream
 var tcpEndpoints = []string{"t1", "t10", "tghost"}
 
-var h3Ops = []string{"listen", "unlisten", "http", "tcp", "wait", "partition", "heal", "shutdown", "kill", "sync", "fwdprobe", "slowclient"}
+var h3Ops = []string{"listen", "unlisten", "http", "tcp", "wait", "partition", "heal", "shutdown", "kill", "sync", "fwdprobe", "slowclient", "stall"}
 
 var h3Profiles = map[string][]int{
 	//      lsn unl http tcp wait part heal shut kill sync fwd
-	"C01": {14, 8, 34, 10, 14, 3, 3, 1, 1, 4, 0, 0},
-	"C06": {10, 8, 26, 18, 10, 10, 4, 0, 0, 2, 10, 0},
-	"C05": {20, 18, 14, 4, 14, 2, 2, 0, 0, 2, 0, 0},
-	"C16": {22, 22, 14, 4, 10, 2, 2, 3, 1, 2, 0, 5},
+	"C01": {14, 8, 34, 10, 14, 3, 3, 1, 1, 4, 0, 0, 0},
+	"C06": {10, 8, 26, 18, 10, 10, 4, 0, 0, 2, 10, 0, 0},
+	"C05": {20, 18, 14, 4, 14, 2, 2, 0, 0, 2, 0, 0, 0},
+	"C16": {22, 22, 14, 4, 10, 2, 2, 3, 1, 2, 0, 5, 3},
 }
 
 func genCluster(prop string) func(rng *simkit.Rand, tier string, idx int) *simkit.Case {
@@ -61,6 +61,12 @@ func genCluster(prop string) func(rng *simkit.Rand, tier string, idx int) *simki
 			}
 			c.Script = append(c.Script, op)
 		}
+		for _, op := range c.Script {
+			if op.K == "stall" {
+				// a small per-connection window: a request body can fill it
+				c.Cfg["window_kb"] = 16
+			}
+		}
 		if prop == "C16" && rng.Intn(3) == 0 {
 			// a client that has connected but not spoken yet, then the node stops
 			a := rng.Intn(1 << 16)
@@ -79,6 +85,7 @@ type cluster3 struct {
 	prop     string
 	async    int
 	requests int
+	slowVia  map[string]bool // nodes through whose proxy a request slower than the grace period was sent (C18)
 }
 
 func netCfg(c *simkit.Case) simnet.Config {
@@ -87,6 +94,7 @@ func netCfg(c *simkit.Case) simnet.Config {
 		StreamDelay: time.Duration(c.Int("stream_delay_us")) * time.Microsecond, StreamJitter: time.Duration(c.Int("stream_delay_us")) * time.Microsecond / 2,
 		Segment: c.I64("segment"), ShortRead: c.I64("segment") / 2,
 		Quantum: time.Duration(c.Int("net_quantum_us")) * time.Microsecond,
+		Window:  c.Int("window_kb") << 10,
 	}
 }
 
@@ -156,6 +164,8 @@ func execCluster(prop string) func(run *simkit.Run) {
 				w.wg.Wait()
 			case "fwdprobe":
 				w.opForwardedProbe(op.A, op.B)
+			case "stall":
+				w.opStall(op.A, op.B)
 			case "slowclient":
 				// a client that connects to a port and then says nothing (yet)
 				if live := w.liveNodes(); len(live) > 0 {
@@ -242,6 +252,56 @@ func (w *cluster3) opUnlisten(a, mode int) {
 		src := ap.host()
 		n := w.nw.ResetConns(func(s, d string) bool { return s == src })
 		w.run.ProbeN("app_conn_reset", n)
+	}
+}
+
+// opStall: the connection of one upstream application stalls (nothing is
+// delivered either way for a while, nothing is lost, nothing is closed) while
+// requests are sent to it - first ones whose bodies fill the connection's
+// window, then ordinary ones, which therefore cannot even open a stream. The
+// connection stays open, so the upstream must stay registered.
+func (w *cluster3) opStall(a, b int) {
+	var cand []*app
+	for _, ap := range w.liveApps("") {
+		if ap.kind == "http" && ap.node >= 0 && ap.agent == nil && w.nodes[ap.node].alive {
+			cand = append(cand, ap)
+		}
+	}
+	if len(cand) == 0 {
+		return
+	}
+	ap := cand[a%len(cand)]
+	n := w.nodes[ap.node]
+	d := time.Duration(11+b%5) * time.Second
+	w.run.Logf("app %d (%s) on %s: connection stalls for %v", ap.id, ap.endpoint, n.id, d)
+	w.run.Fault("upstream_conn_stall")
+	w.lastChurn = time.Now().Add(d + 30*time.Second)
+	w.nw.Partition(ap.host(), n.host, simnet.ClassAll)
+	for k := 0; k < 5; k++ {
+		rq := w.buildReq(n.idx, ap.endpoint, 0)
+		if k < 3 {
+			rq.Method = "POST"
+			rq.Body = bytes.Repeat([]byte{'s'}, 40<<10)
+		}
+		w.requests++
+		w.wg.Add(1)
+		go func() {
+			defer w.wg.Done()
+			res := w.do(rq)
+			if res.Err == nil {
+				w.judgeRouting(rq, res)
+				w.run.Probe(fmt.Sprintf("stall.http_%d", res.Status))
+			}
+		}()
+		time.Sleep(300 * time.Millisecond)
+	}
+	time.Sleep(d)
+	w.nw.Heal(ap.host(), n.host)
+	w.run.Logf("app %d connection flows again", ap.id)
+	if w.prop == "C16" && !w.run.Stop() {
+		// a session that a keep-alive gave up on is re-established by the listener
+		// (back-off up to its maximum): give that time, nothing else
+		w.checkRegisteredWithin(70)
 	}
 }
 
@@ -476,12 +536,14 @@ func (w *cluster3) opForwardedProbe(a, b int) {
 // made or ended, what the serving nodes advertise equals the upstream
 // applications that are connected. An application that announced go-away but
 // has not closed yet may or may not still be counted.
-func (w *cluster3) checkRegisteredWhileConnected() {
+func (w *cluster3) checkRegisteredWhileConnected() { w.checkRegisteredWithin(12) }
+
+func (w *cluster3) checkRegisteredWithin(halfSeconds int) {
 	if w.nw.Config().PktDrop > 0 {
 		return
 	}
 	var why string
-	for i := 0; i < 12; i++ {
+	for i := 0; i < halfSeconds; i++ {
 		time.Sleep(500 * time.Millisecond)
 		synctest.Wait()
 		adv := map[string]int{}
@@ -511,7 +573,7 @@ func (w *cluster3) checkRegisteredWhileConnected() {
 			return
 		}
 	}
-	w.run.Fail("C16.while", "registered-differs-from-connected", "6s after the last connect/disconnect: %s", why)
+	w.run.Fail("C16.while", "registered-differs-from-connected", "%ds after the last connect/disconnect: %s", halfSeconds/2, why)
 }
 
 // appTargetServing: the node the application dials is serving (applications
